@@ -51,8 +51,12 @@ def handleAlloc (toks : List String) : String :=
   match toks with
   | [packed, fields] =>
     let bfs := (fields.splitOn ",").filterMap fun f =>
-      match (f.splitOn ":").map String.toNat? with
-      | [some w, some o, some ts, some ta] => some ({ width := w, off := o, tsize := ts, talign := ta } : RawBf)
+      match f.splitOn ":" with
+      | [w, o, ts, ta] => match w.toNat?, ts.toNat?, ta.toNat? with
+        | some w, some ts, some ta =>
+          if o == "-" then some ({ width := w, off := none, tsize := ts, talign := ta } : RawBf)
+          else o.toNat?.map fun o => ({ width := w, off := some o, tsize := ts, talign := ta } : RawBf)
+        | _, _, _ => none
       | _ => none
     let st := allocRun (packed == "1") bfs
     let offs := ",".intercalate (st.offs.map toString)
